@@ -3,6 +3,7 @@ package auditd
 import (
 	"context"
 	"fmt"
+	"sync"
 	"time"
 
 	"github.com/elastic/go-libaudit/v2"
@@ -76,10 +77,29 @@ func (o *Auditd) Read(ctx context.Context) error {
 
 	defer reassembler.Close()
 
-	go maintainReassemblerLoop(ctx, reassembler, reassemblerInterval)
+	// Stop the helper Go routines and wait for them before returning,
+	// so that no audit line is parsed and no event is written on behalf
+	// of this call after it has returned.
+	ctx, cancel := context.WithCancel(ctx)
+
+	var helpers sync.WaitGroup
+
+	defer helpers.Wait()
+	defer cancel()
+
+	helpers.Add(1)
+
+	go func() {
+		defer helpers.Done()
+		maintainReassemblerLoop(ctx, reassembler, reassemblerInterval)
+	}()
 
 	parseAuditLogsDone := make(chan error, 1)
+
+	helpers.Add(1)
+
 	go func() {
+		defer helpers.Done()
 		parseAuditLogsDone <- parseAuditLogs(ctx, o.Audits, reassembler)
 	}()
 
